@@ -1,5 +1,5 @@
 SPECIFICATION Spec
-CONSTANTS N = 2  U = 2  ITO = 1  AdvQ = 2  Fixed = TRUE  MaxLen = 7
+CONSTANTS N = 2  U = 2  ITO = 1  AdvQ = 2  Fixed = TRUE  MaxLen = 7  Rich = FALSE
 INVARIANTS Report Clean
 VIEW View
 CHECK_DEADLOCK FALSE
